@@ -5,7 +5,7 @@ LEVEL = "other"
 EXPLANATION = (
     "Engine S. The real load path (xr.Variable -> LazilyIndexedArray -> LazilyIndexedWrapper.__getitem__ -> explicit_indexing_adapter -> "
     "_raw_indexing_method -> Array.__getitem__ -> fs.open/seek/read/close) is executed once per load on an instrumented in-memory "
-    "filesystem, with the lock class the real code instantiates replaced by a logging subclass of xarray's SerializableLock and the Array "
+    "filesystem, with the lock object the real code created wrapped by a logging proxy (labelled by the identity of the underlying mutual-exclusion object, so pickled copies exclude the original exactly when the real objects do) and the Array "
     "replaced by a subclass that logs every attribute read and write. The recorded event programs keep the identity of locks, file "
     "handles and objects. z3 then searches for a global order of all events of 2-3 loads that respects program order and lock exclusion "
     "and contains a hazard: a foreign seek/read between a load's seek and read on the same handle, a foreign close before a load's use "
